@@ -87,7 +87,7 @@ func judgeC02(c *Case, tr *hx.Trace, w *ref.World) []Verdict {
 
 func c0102(rep *ev.Reporter, tier string, judge func(c *Case, tr *hx.Trace, w *ref.World) []Verdict) {
 	nShapes, maxCycle := 5, uint64(4)
-	bud := NewBudget(50 * time.Second)
+	bud := NewBudget(170 * time.Second)
 	if tier == "thorough" {
 		nShapes, maxCycle = 99, 6
 		bud = NewBudget(9 * time.Minute)
@@ -95,6 +95,8 @@ func c0102(rep *ev.Reporter, tier string, judge func(c *Case, tr *hx.Trace, w *r
 	gen := func(emit func(Case)) {
 		depMatrix(nShapes, maxCycle, emit)
 		general2(tier, maxCycle, emit)
+		sharedRoles(8, emit)
+		forgetCall(8, emit)
 		if tier == "thorough" {
 			general3(5, emit)
 		}
@@ -116,6 +118,17 @@ func c0102(rep *ev.Reporter, tier string, judge func(c *Case, tr *hx.Trace, w *r
 				m["loc"] = "reloaded-" + m["loc"]
 				c.Meta = m
 			}
+			emit(c)
+		})
+		forgetCall(8, func(c Case) {
+			c.ID = "reloaded/" + c.ID
+			c.Reloaded = true
+			m := map[string]string{}
+			for k, v := range c.Meta {
+				m[k] = v
+			}
+			m["loc"] = "reloaded-" + m["loc"]
+			c.Meta = m
 			emit(c)
 		})
 	}
